@@ -1191,9 +1191,59 @@ def onebyte_sig_cases(rng, tier):
                            o("CHECKMULTISIG", "NOT"), tag="onebyte-sig")
 
 
+def undecodable_cases(rng, tier):
+    """script codes that do not decode to the end (a truncated push): delete_subscript stops at the bad instruction and
+    keeps the rest as it is (commit 50939fb).  A script with a truncated push can never finish eval_script, so these are
+    single handler calls (CHECKSIG / CHECKMULTISIG with pc before the bad instruction) plus a few evals that must fail.
+    A = decodable part (signature pushes, OP_CODESEPARATORs), then `4b xx` (push of 75 with fewer bytes left), then B."""
+    nb = BitcoinVM.IntStreamer.int_to_script_bytes
+    k1, k2 = SECRETS[2], SECRETS[3]
+    key1, key2 = sec(k1), sec(k2)
+    fls = [0, F.VERIFY_NULLFAIL, F.VERIFY_DERSIG | F.VERIFY_LOW_S | F.VERIFY_STRICTENC, F.VERIFY_NULLDUMMY]
+    tails = [b"", o("CODESEPARATOR"), o("CODESEPARATOR", "NOP", "CODESEPARATOR"), b"\x00\x00", push(b"\x07" * 20), o("1", "CODESEPARATOR", "0")]
+    for cb in ((CTX0,) if tier == "quick" else (CTX0, CTXS[2])):
+        # each bad instruction is padded so that the next pc a walking decoder would use (pc+2, +3, +4, +6) is where B starts
+        for bad in ((b"\x4b\x99", b"\x4c\x60\x99", b"\x4d\x60\x00\x99", b"\x4e\x60\x00\x00\x00\x99") if tier == "quick" else
+                    (b"\x4b\x99", b"\x4c\x60\x99", b"\x4d\x60\x00\x99", b"\x4e\x60\x00\x00\x00\x99", b"\x4c\x50", b"\x4c",
+                     b"\x4d\x60\x00", b"\x4d\x01")):
+            for tail in tails:
+                for a_pre in (b"", o("CODESEPARATOR"), o("NOP", "CODESEPARATOR", "NOP")):
+                    for ht in ((1, 0x83) if (tier != "quick" or not a_pre) else (1,)):
+                        # (1) the signature push sits BEFORE the bad instruction: deleted; the rest stays
+                        a_rest = a_pre + o("DROP") + push(key1) + o("CHECKSIG")
+                        code = a_rest + bad + tail
+                        s1 = make_sig(cb, "B", code, k1, ht)
+                        script = push(s1) + a_rest + bad + tail
+                        pc = len(push(s1)) + len(a_rest)
+                        for bch in (0, len(push(s1)) + len(a_pre) if a_pre else 0):
+                            s1b = make_sig(cb, "B", script[bch:].replace(push(s1), b"", 1) if bch == 0 else script[bch:], k1, ht)
+                            yield c_handler(OP["CHECKSIG"], rng.choice(fls), "B", cb, script, pc, [s1, key1], bch=bch, tag="undecodable")
+                            yield c_handler(OP["CHECKSIG"], rng.choice(fls), "B", cb, script, pc, [s1b, key1], bch=bch, tag="undecodable")
+                            yield c_handler(OP["CHECKSIG"], rng.choice(fls), "W", cb, script, pc,
+                                            [make_sig(cb, "W", script[bch:], k1, ht), key1], bch=bch, tag="undecodable")
+                        # (2) a signature push sits AFTER the bad instruction, aligned for a walk that would go on:
+                        #     signatures made for the script with that push deleted must NOT verify any more
+                        a2 = a_pre + push(nb(2)) + push(key1) + push(key2) + push(nb(2)) + o("CHECKMULTISIG")
+                        without = a2 + bad + tail
+                        t1 = make_sig(cb, "B", without, k1, ht)
+                        t2 = make_sig(cb, "B", without, k2, ht)
+                        script2 = a2 + bad + push(t1) + tail
+                        st = [b"", t1, t2, nb(2), key1, key2, nb(2)]
+                        yield c_handler(OP["CHECKMULTISIG"], rng.choice(fls), "B", cb, script2, len(a2), st, tag="undecodable")
+                        u1 = make_sig(cb, "B", script2, k1, ht)      # made for the script as it is
+                        u2 = make_sig(cb, "B", script2, k2, ht)
+                        yield c_handler(OP["CHECKMULTISIG"], rng.choice(fls), "B", cb, script2, len(a2),
+                                        [b"", u1, u2, nb(2), key1, key2, nb(2)], tag="undecodable")
+                        yield c_handler(OP["CHECKSIG"], rng.choice(fls), "B", cb, a_pre + bad + push(t1) + tail, len(a_pre),
+                                        [make_sig(cb, "B", a_pre + bad + tail, k1, ht), key1], tag="undecodable")
+                    # whole-script runs always end in "malformed data"
+                    yield c_eval(rng.choice(fls), "B", cb, push(key1) + o("CHECKSIG") + a_pre + bad + tail,
+                                 [make_sig(cb, "B", push(key1) + o("CHECKSIG") + a_pre + bad + tail, k1)], tag="undecodable")
+
+
 def model_cases(rng, tier):
     """the C03 model-vs-implementation correspondence cases (driver C03model)"""
-    for g in (onebyte_sig_cases, handler_cases, locktime_cases, exhaustive_opcode_cases, cond_cases, limit_cases, step_cases,
+    for g in (undecodable_cases, onebyte_sig_cases, handler_cases, locktime_cases, exhaustive_opcode_cases, cond_cases, limit_cases, step_cases,
               sig_eval_cases, grammar_cases, verify_cases, fuzz_cases):
         for c in g(rng, tier):
             yield c
